@@ -47,6 +47,9 @@ def _adjoint_path(res, cfg, facts0, run, shapes, sub, none, tau, interior_fn, ma
                 g, gi = core.symin(tuple(o.shape), kind='cot', name='g')
                 cots.append(g); cids.append(gi)
             bo = core.outcome(lambda: AG.backprop(outs, cots))
+            if cfg.get('twice') and bo[0] == 'ok':
+                # back-propagating a second time through the same graph (retain_graph=True) must give the same gradients
+                bo = core.outcome(lambda: AG.backprop(outs, cots))
     res.symexec_s += time.time() - t0
     res.funcs = sorted(set(res.funcs) | T.STATE.funcs_entered)
     for o in (so, bo):
@@ -94,7 +97,9 @@ def _adjoint_path(res, cfg, facts0, run, shapes, sub, none, tau, interior_fn, ma
     if rleaves is None:
         return None
     want = [l for k, l in enumerate(rleaves) if l is not None and sub[k]]
-    rgo = core.outcome(lambda: rt.autograd.grad(routs, want, [rt.tensor(g) for g in gv], allow_unused=True))
+    rgo = core.outcome(lambda: rt.autograd.grad(routs, want, [rt.tensor(g) for g in gv], allow_unused=True, retain_graph=bool(cfg.get('twice'))))
+    if cfg.get('twice') and rgo[0] == 'ok':
+        rgo = core.outcome(lambda: rt.autograd.grad(routs, want, [rt.tensor(g) for g in gv], allow_unused=True))
     if bo[0] != rgo[0] or (bo[0] == 'raise' and bo[1] != rgo[1]):
         res.status = 'error'; res.trace = 'backward outcome differs: tape model %r, real autograd %r' % (bo[:3], rgo[:3]); return None
     if bo[0] == 'raise':
@@ -195,7 +200,7 @@ def _adjoint_path(res, cfg, facts0, run, shapes, sub, none, tau, interior_fn, ma
         if tau_u != tau:
             facts['cotangent_scale'] = float(Fraction(tau_u) / Fraction(tau))
         gvv = None if model is None else [core.model_array(model, gi) for gi in cids]
-        rep = replay_adjoint(run, shapes, sub, none, gvv, k, idx, float(tau_u))
+        rep = replay_adjoint(run, shapes, sub, none, gvv, k, idx, float(tau_u), twice=bool(cfg.get('twice')))
         if kind == 'nograd':
             res.violations.append(dict(what='input %s requires grad and influences the output but receives no gradient' % facts['leaf'], facts=facts,
                                        replay=dict(kind='nograd', leaf=k, idx=list(idx)), reproduced=rep['reproduced']))
@@ -208,7 +213,7 @@ def _adjoint_path(res, cfg, facts0, run, shapes, sub, none, tau, interior_fn, ma
     return dict(acc=acc, leaves=leaves, lids=lids, cids=cids, outs=outs, vals=vals)
 
 
-def replay_adjoint(run, shapes, sub, none, gv, k, idx, tau):
+def replay_adjoint(run, shapes, sub, none, gv, k, idx, tau, twice=False):
     """true VJP entry by definition, <g, T(e_idx)> on the real library, vs the real autograd gradient"""
     rt = symtorch.real_torch()
     leaves = [None if none[j] else rt.zeros(*s, dtype=rt.float64, requires_grad=bool(sub[j])) for j, s in enumerate(shapes)]
@@ -216,7 +221,9 @@ def replay_adjoint(run, shapes, sub, none, gv, k, idx, tau):
     if gv is None:
         gv = [np.ones(tuple(o.shape)) for o in outs]
     want = [l for j, l in enumerate(leaves) if l is not None and sub[j]]
-    grads = rt.autograd.grad(outs, want, [rt.tensor(g) for g in gv], allow_unused=True)
+    grads = rt.autograd.grad(outs, want, [rt.tensor(g) for g in gv], allow_unused=True, retain_graph=bool(twice))
+    if twice:
+        grads = rt.autograd.grad(outs, want, [rt.tensor(g) for g in gv], allow_unused=True)
     pos = [j for j in range(len(shapes)) if not none[j] and sub[j]].index(k)
     g = grads[pos]
     e = [None if none[j] else np.zeros(s) for j, s in enumerate(shapes)]
